@@ -200,6 +200,7 @@ Section SessInv.
   Hypothesis P_cats : forall e o names c r, run_categories e o names c = Some r -> P (c_s c) -> P (c_s (fst r)).
   Hypothesis P_emit : forall extra d s rs, P s -> P (set_urrs (fst (emit extra d (s_urrs s) rs)) s).
   Hypothesis P_push : forall pdrid p s, P s -> P (push pdrid p s).
+  Hypothesis P_node : forall n s, P s -> P (set_node n s).      (* a takeover that moves the session to another node object *)
 
   Definition slotsP (sl : list (option sess)) : Prop := forall i s, nth_error sl i = Some (Some s) -> P s.
   Definition WP (w : world) : Prop := slotsP (w_slots w).
@@ -325,6 +326,16 @@ Section SessInv.
   Lemma update_node_id_slots w ref newid : w_slots (update_node_id w ref newid) = w_slots w.
   Proof. unfold update_node_id. destruct (nth_error (w_heap w) ref); reflexivity. Qed.
 
+  Lemma takeover_P w s id w1 s1 : WP w -> P s -> takeover w s id = (w1, s1) -> WP w1 /\ P s1.
+  Proof.
+    intros HW Hs. unfold takeover.
+    assert (R : forall i, WP (update_node_id w (s_node s) i)) by (intros i; unfold WP; rewrite update_node_id_slots; exact HW).
+    destruct (alookup id (w_rnodes w)) as [r|]; [destruct (Nat.eqb r (s_node s))|]; try (intros H; inversion H; subst; split; [apply R | exact Hs]).
+    unfold move_sess. intros H. inversion H; subst. split; [|apply P_node; exact Hs].
+    unfold WP. cbn [set_heap set_dp set_slots_free w_slots]. apply slotsP_set_nth; [exact HW|].
+    intros s0 E0. inversion E0; subst. apply P_node. exact Hs.
+  Qed.
+
   Lemma handle_mod_P w peer seq seid nid o e w' out : WP w -> handle_mod w peer seq seid nid o e = Ok (w', out) -> WP w'.
   Proof.
     intros HW. unfold handle_mod. destruct (lookup (w_slots w) seid) as [[s|]|f] eqn:El; [| |discriminate].
@@ -339,10 +350,10 @@ Section SessInv.
         match goal with |- context [send_rsp ?wx peer seq ?px] =>
           pose proof (send_rsp_slots wx peer seq px) as Hsl; destruct (send_rsp wx peer seq px) as [w3 o3] end.
         intros H. inversion H; subst. unfold WP. cbn [fst] in Hsl. rewrite Hsl. exact Ep.
-      + assert (HW1 : WP (update_node_id w (s_node s) id)) by (unfold WP; rewrite update_node_id_slots; exact HW).
+      + destruct (takeover w s id) as [w1 s1] eqn:Et. destruct (takeover_P _ _ _ _ _ HW Hs Et) as [HW1 Hs1].
         match goal with |- context [run_categories e o mod_order ?cx] =>
           destruct (run_categories e o mod_order cx) as [[c rs]|] eqn:Ec end; [|intros H; inversion H; subst; exact HW].
-        apply P_cats in Ec; [|exact Hs]. cbn [fst] in Ec.
+        apply P_cats in Ec; [|exact Hs1]. cbn [fst] in Ec.
         pose proof (P_emit 0 true (c_s c) rs Ec) as He.
         destruct (emit 0 true (s_urrs (c_s c)) rs) as [urrs ies]. cbn [fst] in He.
         match goal with |- context [put_slot ?wx ?sx] => destruct (put_slot wx sx) as [w2|f] eqn:Ep end; [|discriminate].
@@ -365,10 +376,10 @@ Section SessInv.
         match goal with |- context [put_slot ?wx ?sx] => destruct (put_slot wx sx) as [w2|f] eqn:Ep end; [|discriminate].
         apply put_slot_P in Ep; [|exact HW|exact Ec].
         intros H. inversion H; subst. exact Ep.
-      + assert (HW1 : WP (update_node_id w (s_node s) id)) by (unfold WP; rewrite update_node_id_slots; exact HW).
+      + destruct (takeover w s id) as [w1 s1] eqn:Et. destruct (takeover_P _ _ _ _ _ HW Hs Et) as [HW1 Hs1].
         match goal with |- context [run_categories e o mod_order ?cx] =>
           destruct (run_categories e o mod_order cx) as [[c rs]|] eqn:Ec end; [|intros H; inversion H; subst; exact HW].
-        apply P_cats in Ec; [|exact Hs]. cbn [fst] in Ec.
+        apply P_cats in Ec; [|exact Hs1]. cbn [fst] in Ec.
         match goal with |- context [put_slot ?wx ?sx] => destruct (put_slot wx sx) as [w2|f] eqn:Ep end; [|discriminate].
         apply put_slot_P in Ep; [|exact HW1|exact Ec].
         intros H. inversion H; subst. exact Ep.
@@ -516,6 +527,7 @@ Proof.
   - apply q_bounded_cats.
   - intros extra d s rs H. exact H.
   - intros pdrid p s. apply push_bounded.
+  - intros n s H. exact H.
 Qed.
 
 Theorem reachable_QOK w : reachable w -> QOK w.
@@ -525,6 +537,7 @@ Proof.
   - apply q_bounded_cats.
   - intros extra d s rs H. exact H.
   - intros pdrid p s. apply push_bounded.
+  - intros n s H. exact H.
 Qed.
 
 (* the same machinery: UR-SEQN counters are uint32 values in every reachable state *)
@@ -537,6 +550,7 @@ Proof.
   - intros e o names c r H. apply (skept_bounded (created_by o)). apply (run_categories_kept _ _ _ _ _ H).
   - intros extra d s rs H. cbn [set_urrs s_urrs]. apply emit_bounded. exact H.
   - intros pdrid p s H. destruct (push_fifo_cap pdrid p s) as [_ [_ [_ [_ [_ [_ [_ [_ [_ E]]]]]]]]]. rewrite E. exact H.
+  - intros n s H. exact H.
 Qed.
 
 Theorem reachable_queue_bound w lid s pdr q :
